@@ -11,7 +11,13 @@ WORDS = ["der", "Hund", "bellt", "laut", "a", "b", "x<y", "R&D", "\"q\"", "it's"
          "straße", "été", "sevench", "eightchr", "fifteen_chars__", "sixteen_chars___",
          "w1", "w2", "w3", "Haus", "groß", "1990", "A-B", "x=y",
          # text that spells an XML entity or character reference: it is data, not markup
-         "R&amp;D", "&lt;", "&#228;", "&amp;amp;", "&quot;x", "&#x41;"]
+         "R&amp;D", "&lt;", "&#228;", "&amp;amp;", "&quot;x", "&#x41;",
+         # words that look like numbers, like node references without the '#', or like keywords of the formats and options
+         "0", "12", "500", "-1", "007", "None", "True", "rest", "VROOT", "TOP", "EMPTY",
+         # words made of the letters that occur in the names of the bracket tokens (-LRB-, -RSB-, -LCB-), with and without punctuation characters
+         "BBC", "CBS", "LLC", "S.", "B/C", "LRB", "-L-",
+         # typographic punctuation that is NOT in the tool's inventories: ordinary tokens as far as the properties go
+         "\u201e", "\u201c", "\u00ab", "\u2013", "\u2026", "\u00bb"]
 PUNCT_WORDS = [",", ".", "\"", "'", "(", ")", "``", "''", ";", ":", "-", "--", "?", "!", "/", "...",
                "[", "]", "-LRB-", "-RRB-", "`", "{", "}"]
 PUNCT_POS = {",": "$,", ".": "$.", "\"": "$(", "(": "$(", ")": "$("}
